@@ -570,3 +570,72 @@ CONTRACTS = CONTRACTS + [CHOICE_ENC, ANY_ENC]
 # ---- contracts over a record / collection of a fixed small size are bounded instances, labelled so (never counted as proved) -----
 SEQ_ENC.bounded = 'records of exactly %d components, every OPTIONAL / DEFAULT / set / equals-default pattern (symbolic flags)' % NCOMP
 SEQOF_COMPONENTS.bounded = 'collections of exactly %d elements' % NCOMP
+
+
+# ---- SEQUENCE / SET content for records of ANY number of components ------------------------------------------------------------
+import z3 as _z3
+from pyvc.core import RecSeqV as _RecSeqV, I as _I, S as _S, BoolSort as _BoolSort
+R_OPT = _z3.Function('member.optional', _I, _BoolSort())
+R_DEF = _z3.Function('member.defaulted', _I, _BoolSort())
+R_ISVAL = _z3.Function('component.isValue', _I, _BoolSort())
+R_EQDEF = _z3.Function('component.equalsDefault', _I, _BoolSort())
+R_CHUNK = _z3.Function('component.encoding', _I, _S)
+_rv, _ru = _z3.Const('_rv', _S), _z3.Int('_ru')
+
+
+def r_present(vals, i):
+    return _z3.And(_z3.Not(_z3.And(R_OPT(i), _z3.Not(R_ISVAL(vals[i])))), _z3.Not(_z3.And(R_DEF(i), R_EQDEF(vals[i]))))
+
+
+R_MEMBERS = _z3.RecFunction('encodings_of_present_members', _S, _I, _S)
+_z3.RecAddDefinition(R_MEMBERS, [_rv, _ru], _z3.If(_ru <= 0, _z3.Empty(_S), _z3.Concat(
+    R_MEMBERS(_rv, _ru - 1), _z3.If(r_present(_rv, _ru - 1), R_CHUNK(_rv[_ru - 1]), _z3.Empty(_S)))))
+
+
+class _Components(_RecSeqV):
+    """value.values(): the components in declaration order, known by identity"""
+
+    def elem(self, i):
+        ident = self.cols[0][i]
+        return Obj('Component', {'__id__': ident, 'isValue': R_ISVAL(ident)},
+                   {'__eq__': lambda ex, self_, other: R_EQDEF(ident)}, name='component')
+
+
+def _record_n(ex, env):
+    vals = env['components']
+
+    def getitem(ex2, self, idx):
+        i = toint(idx)
+        return Obj('NamedType', {'isOptional': R_OPT(i), 'isDefaulted': R_DEF(i), 'openType': None,
+                                 'asn1Object': Obj('Default', {}, name='default')}, name='namedType')
+    named = Obj('NamedTypes', {'__truthy__': True}, {'__getitem__': getitem}, name='namedTypes')
+    return Obj('Sequence', {'isInconsistent': False, 'componentType': named},
+               {'values': lambda ex2, self: _Components([vals.z], names=('__id__',))}, name='value')
+
+
+def _encode_member(ex, component, asn1Spec=None, **options):
+    z = R_CHUNK(toint(component.fields['__id__']))
+    ex.assume(inr(z))
+    return SeqV(z, 'bytes')
+
+
+SEQ_ENC_N = Contract(
+    id='ber.encoder::SequenceEncoder.encodeValue[value-object,any-size]', file=F, qual='SequenceEncoder.encodeValue',
+    properties=['C03', 'C04', 'C01'],
+    params=dict(self=PObj('SequenceEncoder', omitEmptyOptionals=PBool()), components=PIntTuple(), value=PDerived(_record_n),
+                asn1Spec=PConst(None), encodeFun=PConst(FnV(_encode_member, 'encodeFun')), options=POptions()),
+    globals={'members': FnV(lambda ex, vals, upto: SeqV(R_MEMBERS(vals.z if isinstance(vals, SeqV) else vals.cols[0], toint(upto)), 'bytes'),
+                            'members'),
+             'unfold': FnV(lambda ex, vals, i: (lambda z, k: _z3.Implies(k >= 0, R_MEMBERS(z, k + 1) == _z3.Concat(
+                 R_MEMBERS(z, k), _z3.If(r_present(z, k), R_CHUNK(z[k]), _z3.Empty(_S)))))(
+                 vals.z if isinstance(vals, SeqV) else vals.cols[0], toint(i)), 'unfold')},
+    loops={0: Loop(index='i', invariant=['substrate == members(loop_seq, i)', 'isinstance(substrate, bytes)', 'X.inr(substrate)'],
+                   hints=['unfold(loop_seq, i)'])},
+    ensures=[
+        # X.690 8.9 / 11.5 for a record of any size: the encodings of the components in declaration order, an OPTIONAL
+        # component that is not a value and a DEFAULT component equal to its default left out
+        ('present-members-in-declaration-order', 'result[0] == members(components, len(components))'),
+        ('constructed', 'result[1] is True and result[2] is True')],
+    note='records without open-type members; the per-member option handling (ifNotEmpty) is in the bounded contract '
+         'SequenceEncoder.encodeValue[value-object]')
+CONTRACTS = CONTRACTS + [SEQ_ENC_N]
